@@ -1,5 +1,6 @@
 import TemplVerif.Model.Registry
 import TemplVerif.Proofs.Registry
+import TemplVerif.Proofs.Prefix
 /-
 C12 — scripts, CSS classes and once-blocks are emitted once per context, before use.
 -/
@@ -44,5 +45,28 @@ theorem C12_independent (c₁ c₂ : Ctx) (u₁ u₂ : List Use) :
 example : (run {} [.scriptAttrs [1, 2], .scriptComponent 1 true, .classAttr [.classes [.kvIface 3 true, .comp 3]], .once 1, .once 1,
     .classAttr [.fn 3]]).2 =
     [.scriptDef [1, 2], .scriptCall 1, .scriptCall 2, .scriptCall 1, .styleDef [3], .className 3, .onceContent 1, .className 3] := by decide
+
+/-! ## Whole templates
+
+`Sem.St.scripts` lists, in order, the names of the script functions a render has emitted (each emission appends the
+name and writes the definition in the same step, `Sem.emitScripts`). Over the template semantics of C02, for EVERY
+template body and environment - however often and through whichever elements, loops, branches and component blocks a
+script is used - the emitted names are pairwise different: each definition goes out at most once per render. -/
+theorem C12_template_scripts_once (strict : Bool) (body : Ast.Nodes) (env : Sem.Env) :
+    (Denote.nodes strict true true body false env {}).scripts.Nodup :=
+  Proofs.Prefix.run_scripts_nodup strict body env
+
+/-- One emission adds exactly the names not emitted before, keeps the earlier ones in place and stays duplicate free. -/
+theorem C12_template_emit (items : List (Bytes × Bytes)) (st : Sem.St) (h : st.scripts.Nodup) :
+    (Sem.emitScripts items st).scripts.Nodup ∧ st.scripts <+: (Sem.emitScripts items st).scripts ∧
+    (∀ n ∈ (Sem.emitScripts items st).scripts, n ∈ st.scripts ∨ n ∈ items.map (·.1)) :=
+  Proofs.Prefix.emitScripts_adds items st h
+
+/-- Non-vacuity: two elements using the same handler: one definition, two calls. -/
+example :
+    let h : Ast.Attrs := .cons (.expr [111, 110, 99, 108, 105, 99, 107] [104]) .nil
+    let body : Ast.Nodes := .cons (.element [97] h .nil .none false false) (.cons (.element [98] h .nil .none false false) .nil)
+    let env : Sem.Env := [([104], { keys := [], val := .script [102] [70] [99] })]
+    (Denote.run body env).scripts = [[102]] ∧ (Denote.run body env).err = false := by decide
 
 end TemplVerif.Props.C12
